@@ -36,13 +36,14 @@ M = [
     ('textfile-drops-empty-records', 'streamz/sources.py', "                for part in parts:\n                    await asyncio.gather(*self._emit(part + self.delimiter))",
      "                for part in parts:\n                    if part or len(self.delimiter) == 1:\n                        await asyncio.gather(*self._emit(part + self.delimiter))", ['C17']),
     ('filenames-unsorted', 'streamz/sources.py', "        for fn in sorted(new):", "        for fn in new:", ['C17']),
-    ('source-double-loop', 'streamz/sources.py', "            if not self._running:\n", "            if True:\n", ['C18']),
+    ('source-double-loop', 'streamz/sources.py', "            if not self._running:\n                # otherwise the previous run() has not noticed", "            if True:\n                # otherwise the previous run() has not noticed", ['C18']),
+    ('kafka-source-double-loop', 'streamz/sources.py', "            # connection with broker to fetch oauth token for kafka\n            self.consumer.poll(timeout=1)\n            self.consumer.get_watermark_offsets(tp)\n            if not self._running:\n", "            # connection with broker to fetch oauth token for kafka\n            self.consumer.poll(timeout=1)\n            self.consumer.get_watermark_offsets(tp)\n            if True:\n", ['C18']),
     ('ensure-io-loop-override', 'streamz/core.py', "        if ensure_io_loop and not self.loop and self.asynchronous is None:", "        if ensure_io_loop and not self.loop:", ['C19']),
     ('combine-latest-remove', 'streamz/core.py', "        self.missing.discard(upstream)", "        self.missing.remove(upstream)", ['C15']),
     ('disconnect-one-sided', 'streamz/core.py', "        self._remove_downstream(downstream)\n\n        downstream._remove_upstream(self)", "        self._remove_downstream(downstream)\n", ['C15']),
     ('dask-accumulate-state', 'streamz/dask.py', "                state = result\n            self.state = state\n            if self.with_state:\n                return self._emit((self.state, result), metadata=metadata)",
      "                state = result\n            if self.with_state:\n                self.state = state\n                return self._emit((self.state, result), metadata=metadata)\n            self.state = x", ['C20']),
-    ('gather-no-retain', 'streamz/dask.py', "        self._retain_refs(metadata)\n        result = yield client.gather(x, asynchronous=True)", "        result = yield client.gather(x, asynchronous=True)", ['C20', 'C04']),
+    ('gather-no-retain', 'streamz/dask.py', "        self._retain_refs(metadata)\n        # Several updates can be under way", "        # Several updates can be under way", ['C20', 'C04']),
     ('map-async-release-on-failure', 'streamz/core.py', "                if results:\n                    await asyncio.gather(*results)\n                self._release_refs(metadata)", "                if results:\n                    await asyncio.gather(*results)\n            self._release_refs(metadata)", ['C04']),
     ('slice-drops-awaitables', 'streamz/core.py', "            result = self._emit(x, metadata=metadata)\n        else:\n            result = None", "            self._emit(x, metadata=metadata)\n            result = None\n        else:\n            result = None", ['C03', 'C16']),
     ('df-diff-iloc-offbyone', 'streamz/dataframe/aggregations.py', "        n = sum(map(len, dfs)) - window\n", "        n = sum(map(len, dfs)) - window - 1\n", ['C07']),
@@ -67,7 +68,7 @@ M = [
     ('kafka-default-reset-on-callers-dict', 'streamz/sources.py', "            self.consumer_params['auto.offset.reset'] = 'latest'", "            consumer_params['auto.offset.reset'] = 'latest'", ['C09']),
     ('kafka-new-partitions-ignore-committed', 'streamz/sources.py', "                        self.positions.extend(tp.offset for tp in committed)", "                        self.positions.extend(-1001 for tp in committed)", ['C09']),
     ('connect-does-not-inform-upstream-side', 'streamz/core.py', "        for node in (self, downstream):\n            if loops:", "        for node in (downstream,):\n            if loops:", ['C19']),
-    ('connect-checks-end-nodes-only', 'streamz/core.py', "        loops, modes = self._pipeline_knowledge()\n        for loop in downstream._pipeline_knowledge(modes)[0]:", "        loops = [self.loop] if self.loop is not None else []\n        modes = set(bool(n.asynchronous) for n in (self, downstream) if n.asynchronous is not None)\n        for loop in ([downstream.loop] if downstream.loop is not None else []):", ['C19']),
+    # connect-checks-end-nodes-only: equivalent since a7cb0c5/83809ae (every node of a pipeline now knows its loop and mode)
     ('gather-no-wait-downstream', 'streamz/dask.py', "        result2 = yield self._emit(result, metadata=metadata)", "        result2 = self._emit(result, metadata=metadata)", ['C20']),
 ]
 
